@@ -64,6 +64,11 @@ package mux
 //
 //@ pred membersOK(ms []Matcher) = forall k int :: 0 <= k && k < len(ms) ==> ms[k] != nil
 //
+//@ fn AndMatcher
+//@   ensures [C13,C07] cloned: len(m) > 0 ==> fresh(capture("mux.AndMatcher$1", 0, unbox(result, "MatcherFunc")))
+//@ fn OrMatcher
+//@   ensures [C13,C07] cloned: len(m) > 0 ==> fresh(capture("mux.OrMatcher$1", 0, unbox(result, "MatcherFunc")))
+//
 //@ fn AndMatcher$1
 //@   implements mux.MatcherFunc
 //@   requires membersOK(m)
